@@ -255,6 +255,38 @@ def record_eml(seed):
     return tr
 
 
+def record_unknown_root(seed):
+    """prune of a tree whose own root is not a known element: prune reports the root as removed; with nothing to detach
+    it from, 'removed' can only mean the registry - the whole tree must be gone from it, an unrelated tree must stay."""
+    from metapype.eml import validate
+    rnd = random.Random(seed)
+    Node.store.clear()
+    w = World(clear=False)
+    root = Node(rnd.choice(["dataPackage", "zzRoot", "Dataset"]))
+    root.add_child(Node("title", content="t"))
+    c = Node("creator")
+    root.add_child(c)
+    c.add_child(Node("organizationName", content="o"))
+    if rnd.random() < 0.5:
+        root.add_child(Node("zzJunk"))
+    other = Node("dataset")
+    other.add_child(Node("title", content="unrelated"))
+    w.track_tree(root)
+    w.track_tree(other)
+    tr = {"init": slim(w.pi(all_fields())), "events": [], "desc": {"seed": seed, "case": "prune of a parentless unknown root"}}
+    ok, listed = True, False
+    try:
+        out = validate.prune(root, strict=rnd.random() < 0.5)
+        listed = any(isinstance(x, tuple) and x and x[0] is root for x in out)
+    except Exception:  # noqa: BLE001
+        ok = False
+    if ok and listed:        # only when prune itself says it removed the root is the whole tree 'discarded'
+        tr["events"].append({"op": "discarding_whole", "args": [1, "prune"], "ok": ok, "ret": 0, "post": slim(w.pi(all_fields()))})
+    else:
+        tr["events"].append({"op": "resync", "args": [], "ok": True, "ret": 0, "post": slim(w.pi(all_fields()))})
+    return tr
+
+
 def _walk(n):
     yield n
     for c in n.children:
@@ -262,7 +294,7 @@ def _walk(n):
 
 
 def w_eml(seeds):
-    return [record_eml(s) for s in seeds]
+    return [record_eml(s) for s in seeds] + [record_unknown_root(s) for s in seeds[:2]]
 
 
 def run(rep, tier, seed):
